@@ -195,6 +195,12 @@ public:
     if (auto* MD = dyn_cast<CXXMethodDecl>(FD))
       if (MD->isConst())
         s += "const";
+    // functions with internal linkage (static, anonymous namespace) are distinct per file: keep their keys apart
+    if (!FD->isExternallyVisible() && !isa<CXXMethodDecl>(FD)) {
+      std::string f = fileOf(FD->getCanonicalDecl()->getLocation());
+      auto pos      = f.rfind('/');
+      s += "@" + (pos == std::string::npos ? f : f.substr(pos + 1));
+    }
     return s;
   }
 
